@@ -607,6 +607,10 @@ func (x *ctx) exec(c caseT) outcome {
 		}
 		classes[len(classes)-1] = "ok-empty"
 	}
+	if d := env.SpareDamage(); len(d) > 0 {
+		o.msg = fmt.Sprintf("the client wrote into the memory behind the end of the answers it was given for %v", d)
+		return o
+	}
 	for _, w := range env.CacheWrites {
 		if msg := clientx.CheckCacheWrite(w, x.A); msg != "" {
 			o.msg = msg
